@@ -27,7 +27,7 @@ META = {
                     "quiescence is bounded: 12 rounds of (deliver everything, let 100 virtual seconds pass, reconnect if down); a history that does not reach it is counted, not judged"],
 }
 REQUIRED_ORACLES = ["quiescent-comparison", "exhaustive-sequences", "breaks-with-traffic-in-flight"]
-REQUIRED_COUNTERS = ["burst_histories", "connections_dying_under_a_handlers_reply", "new_messages_sent_by_another_task_during_a_retransmission", "breaks_with_traffic_in_flight_or_unacknowledged"]
+REQUIRED_COUNTERS = ["breaks_in_the_middle_of_a_frame", "burst_histories", "connections_dying_under_a_handlers_reply", "new_messages_sent_by_another_task_during_a_retransmission", "breaks_with_traffic_in_flight_or_unacknowledged"]
 NSHARDS = 16
 EXH_DEPTH = {"quick": 8, "thorough": 10}
 NRAND = {"quick": 60, "thorough": 4000}
@@ -184,13 +184,13 @@ class Sess:
         return bool(w.in_flight("I") or w.in_flight("A") or w.ep["I"]._session.next_num_out != w.ep["A"]._session.next_num_in
                     or w.ep["A"]._session.next_num_out != w.ep["I"]._session.next_num_in)
 
-    async def brk(self, kI="eof", kA="eof", dI=None, dA=None):
+    async def brk(self, kI="eof", kA="eof", dI=None, dA=None, partial=None):
         if self.w.link is None or not self.w.link.up:
             return False
         self.breaks += 1
         if self.unacked():
             self.breaks_with_traffic += 1
-        await self.w.break_(kI, kA, dI, dA)
+        await self.w.break_(kI, kA, dI, dA, partial)
         return True
 
     async def reconnect(self):
@@ -594,7 +594,13 @@ def random_actions(rnd, maxbreaks):
             kI, kA = rnd.choice(kinds), rnd.choice(kinds)
             dI = rnd.choice([None, None, ConnectionResetError("reset"), BrokenPipeError("pipe")])
             dA = rnd.choice([None, None, ConnectionResetError("reset"), BrokenPipeError("pipe")])
-            return ("break", kI, kA, dI, dA)
+            # a third of the breaks cut the frame that was next in flight in two: its head still arrives
+            partial = None
+            if rnd.random() < 0.35:
+                sides = [x for x in "IA" if w.in_flight(x)]
+                if sides:
+                    partial = (rnd.choice(sides), rnd.choice([0.1, 0.3, 0.5, 0.8, 0.97]))
+            return ("break", kI, kA, dI, dA, partial)
         return a
     return fn
 
@@ -645,6 +651,7 @@ def run_shard(spec, acc):
             acc.add("connections_dying_under_a_handlers_reply", s.dying)
             acc.add("new_messages_sent_by_another_task_during_a_retransmission", s.concurrent_sends)
             acc.add("histories_with_both_sessions_in_one_journal", 1 if s.shared_journal else 0)
+            acc.add("breaks_in_the_middle_of_a_frame", s.w.partial_frames_delivered)
             judge(acc, s, how, cid)
             if c < 2:
                 acc.sample({"trace": s.trace[:40], "end": how}, 2)
